@@ -658,4 +658,47 @@ theorem deref_keeps (t : List FieldSpec) {h h' : Heap} (hk : Keeps h h') (c : RC
   intro fs hfs
   rw [derefVal_keeps hk _ _ (hc fs hfs)]
 
+/-! ### the shape interpreter at the canonical shape -/
+
+theorem readDirS_canonical (t : List FieldSpec) (es : List DirEnt) : ∀ acc,
+    readDirS canonicalRead t es acc = readDir t es acc := by
+  induction es with
+  | nil => intro acc; rfl
+  | cons e es ih =>
+    intro acc
+    have h1 : canonicalRead.skipSubdirs = true := rfl
+    have h2 : canonicalRead.suffix = ".json" := rfl
+    have h3 : canonicalRead.dirMerge = .resultFirst := rfl
+    simp only [readDirS, readDir, h1, h2, h3, Bool.true_and, mergeBy, isJson, ih]
+    by_cases hd : e.isDir = true
+    · simp [hd]
+    · by_cases hj : hasSuffix ".json" e.name = true
+      · cases hc : e.cfg <;> simp [hd, hj, ih]
+      · simp [hd, hj]
+
+theorem readLoopS_canonical (t : List FieldSpec) (ps : List PathArg) : ∀ acc,
+    readLoopS canonicalRead t ps acc = readLoop t ps acc := by
+  induction ps with
+  | nil => intro acc; rfl
+  | cons p ps ih =>
+    intro acc
+    cases p with
+    | unreadable => rfl
+    | file c =>
+      cases c with
+      | none => rfl
+      | some c =>
+        have h : canonicalRead.fileMerge = .resultFirst := rfl
+        simp only [readLoopS, readLoop, h, mergeBy, ih]
+    | dir ents =>
+      simp only [readLoopS, readLoop]
+      have : canonicalRead.dirMode = .running := rfl
+      simp only [this, readDirS_canonical]
+      have hs : orderEnts canonicalRead.sort ents = sortEnts ents := rfl
+      rw [hs]
+      cases readDir t (sortEnts ents) acc <;> simp [ih]
+
+theorem readPathsS_canonical (t : List FieldSpec) (ps : List PathArg) :
+    readPathsS canonicalRead t ps = readPaths t ps := readLoopS_canonical t ps (zero t)
+
 end SerfProofs.Config
